@@ -339,6 +339,41 @@ fn features<V: VringT<dmn::Mem> + Clone + Send + Sync + 'static>(cfg: &Cfg, rng:
     }
 }
 
+/// A device that does not offer VHOST_USER_F_PROTOCOL_FEATURES: bit 30 is "not offered" like any other
+/// bit. No acknowledgement exists without protocol features, so the outcome is read from a barrier
+/// round trip (a refused SET_FEATURES ends the connection) and from the backend's callbacks.
+fn features_without_pf<V: VringT<dmn::Mem> + Clone + Send + Sync + 'static>(cfg: &Cfg) {
+    for (i, offered) in [0x1_0000_0003u64, (1 << 29) | (1 << 32) | 1, 0].into_iter().enumerate() {
+        for extra in [1u64 << 30, 0] {
+            let bc = BCfg { num_queues: NQ, max_queue_size: MAXQ, masks: vec![0xff], features: offered, ..BCfg::default() };
+            let mut s: Sess<V> = Sess::new(bc);
+            let mut fe = s.connect(256);
+            let got = fe.get_features();
+            if got.as_ref().ok() != Some(&offered) {
+                viol(cfg, "get_features:offer-differs-from-backend", jo! {"backend_features" => J::x64(offered), "reply" => format!("{got:?}")}, "nopf");
+                return;
+            }
+            s.be.st.lock().unwrap().callbacks.clear();
+            let mask = offered | extra;
+            let _ = fe.set_features(mask);
+            let barrier = fe.get_features();
+            let acked: Vec<u64> = s.be.st.lock().unwrap().callbacks.iter().filter(|c| c.0 == "acked_features").map(|c| c.1[0]).collect();
+            report::eval(1);
+            report::count("set_features.without_pf", 1);
+            report::distinct_str(&format!("nopf:{i}:{extra:x}"));
+            let subset = mask & !offered == 0;
+            let ok = if subset { barrier.is_ok() && acked == vec![mask] } else { barrier.is_err() && acked.is_empty() };
+            if !ok {
+                viol(cfg, if subset { "set_features:bits-delivered" } else { "set_features:not-offered-bits-accepted" },
+                    jo! {"offered" => J::x64(offered), "requested" => J::x64(mask), "connection_alive_afterwards" => barrier.is_ok(), "delivered_to_backend" => format!("{acked:x?}")}, "nopf");
+                return;
+            }
+            drop(fe);
+            let _ = s.daemon.wait();
+        }
+    }
+}
+
 /// A newly attached backend-request channel inherits reply-ack / shared-object / shmem.
 fn backend_channel<V: VringT<dmn::Mem> + Clone + Send + Sync + 'static>(cfg: &Cfg) {
     for bits in 0..24u64 {
@@ -527,10 +562,11 @@ pub fn run(cfg: &Cfg) {
     let mut rng = Rng::new(cfg.seed.wrapping_mul(0xc14).wrapping_add(cfg.shard));
     let only = cfg.only.clone().unwrap_or_default();
     let all = only.is_empty() || only == "all";
-    let rw = cfg.seed % 2 == 0;
+    // both ring lock flavours in every run (the adapters are separate code)
     macro_rules! both {
         ($f:ident $(, $a:expr)*) => {
-            if rw { $f::<VringRwLock<dmn::Mem>>(cfg $(, $a)*) } else { $f::<VringMutex<dmn::Mem>>(cfg $(, $a)*) }
+            $f::<VringRwLock<dmn::Mem>>(cfg $(, $a)*);
+            $f::<VringMutex<dmn::Mem>>(cfg $(, $a)*);
         };
     }
     if all || only == "sizes" || only == "bases" {
@@ -544,6 +580,9 @@ pub fn run(cfg: &Cfg) {
     }
     if all || only == "features" {
         both!(features, &mut rng);
+    }
+    if (all && cfg.shard == 0) || only == "nopf" {
+        both!(features_without_pf);
     }
     if (all && cfg.shard == 0) || only == "channel" {
         both!(backend_channel);
